@@ -261,12 +261,15 @@ where
         // Write the temporary changes
         if int_config0.bits() != tmp_int_config0.bits() {
             self.device.interface.write_register(tmp_int_config0)?;
+            self.device.config.int_config.set_config0(tmp_int_config0);
         }
         if int_config1.bits() != tmp_int_config1.bits() {
             self.device.interface.write_register(tmp_int_config1)?;
+            self.device.config.int_config.set_config1(tmp_int_config1);
         }
         if wkup_int_config0.bits() != tmp_wkup_int_config0.bits() {
             self.device.interface.write_register(tmp_wkup_int_config0)?;
+            self.device.config.wkup_int_config.set_config0(tmp_wkup_int_config0);
         }
         // Write the config changes
         if self.device.config.int_pin_config.int1_map.bits() != self.config.int1_map.bits() {
@@ -288,14 +291,17 @@ where
             self.device.config.int_pin_config.int12_io_ctrl = self.config.int12_io_ctrl;
         }
         // Restore the disabled interrupts
-        if self.device.config.int_config.get_config0().bits() != tmp_int_config0.bits() {
+        if self.device.config.int_config.get_config0().bits() != int_config0.bits() {
             self.device.interface.write_register(int_config0)?;
+            self.device.config.int_config.set_config0(int_config0);
         }
-        if self.device.config.int_config.get_config1().bits() != tmp_int_config1.bits() {
+        if self.device.config.int_config.get_config1().bits() != int_config1.bits() {
             self.device.interface.write_register(int_config1)?;
+            self.device.config.int_config.set_config1(int_config1);
         }
-        if wkup_int_config0.bits() != tmp_wkup_int_config0.bits() {
+        if self.device.config.wkup_int_config.get_config0().bits() != wkup_int_config0.bits() {
             self.device.interface.write_register(wkup_int_config0)?;
+            self.device.config.wkup_int_config.set_config0(wkup_int_config0);
         }
         Ok(())
     }
